@@ -226,6 +226,29 @@ theorem fresh_still_accepted (P : Prims) (s : Server) (f g : Filter) (H now : In
     exact ⟨H + o1, H + o2, by omega, by omega, by omega,
       collision_of_mac_eq P s.idPub s.nodeID _ _ _ (by omega) heq⟩
 
+/-- **the expiry of OLDER entries never makes a younger, unexpired handshake acceptable again.**
+    Take any well-formed filter state holding an entry `e` (the MAC of a handshake accepted at `e.t`)
+    next to arbitrarily many older entries, and run any history `x` of submissions (monotone clock, room
+    at every step) during which those older entries may reach the TTL and be purged: as long as `e`
+    itself is younger than the TTL at the resubmission (`now - e.t < ttl`), a byte-identical
+    resubmission of its handshake is rejected (`replayed`, or `invalidHandshake` once its hour left
+    the window) — the purge is entry by entry, oldest first, and stops at the first young entry
+    (the TTL exactness behind `C11.exact_ttl`, in C04's terms). -/
+theorem older_expiry_keeps_younger (P : Prims) (F : Factory) (f : Filter) (t : Int) (x : List Submission)
+    (hw : WF f t) (hm : MonotoneFrom t x) (hb : Below P F f x)
+    (e : Entry) (he : e ∈ f.fifo)
+    (c : Conn) (H now : Int) (blob : Bytes) (pos : Nat)
+    (hnow : lastNow t x ≤ now) (hyoung : now - e.t < f.ttl)
+    (hroom : (runHistory P F f x).1.fifo.length + 1 < (runHistory P F f x).1.cap)
+    (hlen : clientMinHandshakeLength ≤ blob.length)
+    (hpos : markPos P (newServer F c) blob = some pos) (hd : e.d = digestAt blob pos) :
+    (parseClientHandshake P (newServer F c) (runHistory P F f x).1 H now blob).2.2 = .err .replayed ∨
+    (parseClientHandshake P (newServer F c) (runHistory P F f x).1 H now blob).2.2 = .err .invalidHandshake := by
+  have hk := history_keeps P F x f t hw hm hb
+  have hin := hk.2.2 e he (by omega)
+  exact parse_seen P (newServer F c) _ H now blob pos (hk.2.1.mono hnow) hroom hlen hpos
+    ⟨e, hin, hd, by rw [hk.1]; exact hyoung⟩
+
 /-! ## Non-vacuity (toy primitives of `C03`, evaluated by the kernel) -/
 
 open C03 in
